@@ -243,6 +243,26 @@ def r10_2(ctx, counts, spec) -> RuleResult:
         body = tail[:-1] if tail.endswith('?') else tail
         tz.setdefault(body, []).append(c.name)
     res.instances.append(f'timezone sub-patterns: {[(k, len(v)) for k, v in tz.items()]}')
+    # reference: XSD 1.1 Part 2 §3.3.7 timezoneFrag ::= 'Z' | ('+'|'-') (('0' digit | '1' [0-3])
+    # ':' minuteFrag | '14:00')
+    xsd_tz = r'Z|[+-](?:(?:0[0-9]|1[0-3]):[0-5][0-9]|14:00)'
+    for body, names in sorted(tz.items()):
+        n += 1
+        try:
+            w = rx.equivalent(body, xsd_tz)
+        except rx.Unsupported as err:
+            raise AnalysisError(f'timezone sub-pattern not supported by the DFA engine: {err}')
+        res.instances.append(f'timezone sub-pattern of {names[:3]}… vs XSD timezoneFrag: '
+                             f'{"equal" if w is None else "differ at " + repr(w)}')
+        if w is None:
+            res.ok()
+        else:
+            c = model.find_class(names[0])
+            side = 'accepted by the code only' if rx.accepts(body, w) else 'rejected by the code'
+            res.fail(Finding('R10.2', c.module.relpath, c.qualname, 'timezone fragment vs XSD',
+                             f'the timezone part of the date/time patterns ({names}) differs '
+                             f'from the XSD timezoneFrag production: {w!r} is {side}',
+                             c.node.lineno))
     if len(tz) == 1:
         res.ok()
     else:
